@@ -434,9 +434,38 @@ class Gen:
         return cirq.CircuitOperation(cirq.FrozenCircuit(body), repetitions=reps_o, qubit_map={s0: o0, s1: o1},
                                      measurement_key_map=kmap_o, use_repetition_ids=ids_o)
 
+    def two_key_subcircuit(self) -> Optional[cirq.Operation]:
+        """A sub-circuit that measures two keys and acts on a condition over both, under a key map that may
+        rename the two crosswise."""
+        qs2 = self.qubits_only()
+        if len(qs2) < 2 or self.leaf_bits + 2 > self.cap or not self.allow_control:
+            return None
+        if any(k in self.key_dims or k in self.channel_keys for k in ("u", "v")):
+            return None
+        o0, o1 = self._pick_distinct(qs2, 2, "sub-q")
+        s0, s1 = cirq.NamedQubit("s0"), cirq.NamedQubit("s1")
+        rot = (lambda q: cirq.H(q)) if self.clifford_only else (
+            lambda q: cirq.ry(math.pi / 8 * self._pick(EIGHTHS, "angle")).on(q))
+        su, sv = sympy.Symbol("u"), sympy.Symbol("v")
+        cond = cirq.SympyCondition([su > sv, su < sv, sympy.Eq(su + 1, sv)][self.t.draw(3, "rel2")])
+        gate = self._pick([cirq.X, cirq.Z, cirq.H], "sub-cl")
+        body = [rot(s0), rot(s1), cirq.measure(s0, key="u"), cirq.measure(s1, key="v"),
+                gate.on([s0, s1][self.t.draw(2, "sub-qi")]).with_classical_controls(cond)]
+        kmap = {"u": "v", "v": "u"} if self.t.chance(1, 2, "sub-keymap-swap?") else {}
+        self.leaf_bits += 2
+        for name in ("u", "v"):
+            self.key_dims[name] = (2,)
+            self.key_instances[name] = 1
+        self.features.update({"subcircuit", "classical-control", "subcircuit-control-two-local-keys"})
+        if kmap:
+            self.features.update({"subcircuit-key-map", "subcircuit-key-map-swap"})
+        return cirq.CircuitOperation(cirq.FrozenCircuit(body), qubit_map={s0: o0, s1: o1}, measurement_key_map=kmap)
+
     def subcircuit(self) -> Optional[cirq.Operation]:
         if self.allow_control and self.t.chance(1, 5, "nested?"):
             return self.nested_subcircuit()
+        if self.allow_control and self.t.chance(1, 6, "two-key-condition?"):
+            return self.two_key_subcircuit()
         """A CircuitOperation around a tiny sub-circuit (unitaries and measurements), with tape-drawn
         repetitions, qubit map, measurement-key map and repetition ids.  The keys it records under are
         computed here from the documented meaning of those arguments."""
